@@ -29,6 +29,10 @@ def main():
             extra = sys.argv[i + 1].split(',')
     out = os.path.join(ROOT, 'seeded', sid)
     os.makedirs(out, exist_ok=True)
+    fast = '--fast' in sys.argv      # re-run only the checks; demo / baseline results are kept from the last full evaluation
+    old_meta = None
+    if fast and os.path.exists(os.path.join(out, 'meta.json')):
+        old_meta = json.load(open(os.path.join(out, 'meta.json')))
     def cp(a, b):
         if os.path.abspath(a) != os.path.abspath(b):
             shutil.copy(a, b)
@@ -43,9 +47,12 @@ def main():
         ['git', '-C', '/repo', 'rev-parse', '--short', 'HEAD'], text=True).strip(), 'ran': []}
     try:
         env = dict(os.environ, PYTHONPATH=d, DISABLE_PREFERENCES='1')
-        p = sh([PY, os.path.join(out, 'demo.py')], cwd=d, env=env, timeout=600)
-        meta['demo_pristine_exit'] = p.returncode
-        meta['ran'].append(f'PYTHONPATH=<scratch> python demo.py (pristine) -> exit {p.returncode}')
+        if old_meta and old_meta.get('baseline_ok') is not None:
+            meta['demo_pristine_exit'] = old_meta.get('demo_pristine_exit')
+        else:
+            p = sh([PY, os.path.join(out, 'demo.py')], cwd=d, env=env, timeout=600)
+            meta['demo_pristine_exit'] = p.returncode
+            meta['ran'].append(f'PYTHONPATH=<scratch> python demo.py (pristine) -> exit {p.returncode}')
         a = sh(['git', '-C', d, 'apply', os.path.join(out, 'patch.diff')])
         if a.returncode != 0:
             a = sh(['git', '-C', d, 'apply', '--3way', os.path.join(out, 'patch.diff')])
@@ -53,14 +60,19 @@ def main():
         if a.returncode != 0:
             meta['patch_error'] = a.stderr[-500:]
         else:
-            p = sh([PY, os.path.join(out, 'demo.py')], cwd=d, env=env, timeout=600)
-            meta['demo_patched_exit'] = p.returncode
-            meta['demo_patched_tail'] = (p.stdout + p.stderr)[-400:]
-            meta['ran'].append(f'git apply patch.diff; python demo.py (patched) -> exit {p.returncode}')
-            b = sh([PY, os.path.join(ROOT, 'tools', 'baseline_check.py')], env=dict(os.environ, VERIF_REPO=d), timeout=1800)
-            meta['baseline_with_patch'] = b.stdout.strip().splitlines()[:3]
-            meta['baseline_ok'] = b.returncode == 0
-            meta['ran'].append(f'VERIF_REPO=<scratch> tools/baseline_check.py -> exit {b.returncode}')
+            if old_meta and old_meta.get('baseline_ok') is not None:
+                for k_ in ('demo_patched_exit', 'demo_patched_tail', 'baseline_with_patch', 'baseline_ok'):
+                    meta[k_] = old_meta.get(k_)
+                meta['ran'].append(f"demo and baseline results kept from the full evaluation at repo {old_meta.get('repo_head')}")
+            else:
+                p = sh([PY, os.path.join(out, 'demo.py')], cwd=d, env=env, timeout=600)
+                meta['demo_patched_exit'] = p.returncode
+                meta['demo_patched_tail'] = (p.stdout + p.stderr)[-400:]
+                meta['ran'].append(f'git apply patch.diff; python demo.py (patched) -> exit {p.returncode}')
+                b = sh([PY, os.path.join(ROOT, 'tools', 'baseline_check.py')], env=dict(os.environ, VERIF_REPO=d), timeout=1800)
+                meta['baseline_with_patch'] = b.stdout.strip().splitlines()[:3]
+                meta['baseline_ok'] = b.returncode == 0
+                meta['ran'].append(f'VERIF_REPO=<scratch> tools/baseline_check.py -> exit {b.returncode}')
             meta['checks'] = {}
             for pr in [prop] + extra:
                 t0 = time.time()
